@@ -168,7 +168,7 @@ class PositiveWaveFunction(WaveFunctionBase):
                   with an exact negative phase update
         :rtype: list[torch.Tensor]
         """
-        return super().compute_exact_grads(samples_batch, space, bases_batch=None)
+        return super().compute_exact_gradients(samples_batch, space, bases_batch=None)
 
     def compute_batch_gradients(self, k, samples_batch, neg_batch, *args, **kwargs):
         r"""Compute the gradients of a batch of the training data (`samples_batch`).
